@@ -36,6 +36,8 @@ def map_cfg(path, nk, maxlen, depth, nh, ops, rich, mode):
             f.write("SPECIFICATION Spec\nINVARIANTS WFInv EmitLeaf\n")
         elif mode == "heap-copy":
             f.write("CONSTANT CopyOut = TRUE\nSPECIFICATION HSpec\nINVARIANTS Refines Isolated\nVIEW HView\n")
+        elif mode == "heap-lent":
+            f.write("CONSTANT CopyOut = TRUE\nSPECIFICATION HSpec\nINVARIANTS Isolated\nVIEW HView\n")
         elif mode == "heap-alias":
             f.write("CONSTANT CopyOut = FALSE\nSPECIFICATION HSpec\nINVARIANTS EmitRisky\nCONSTRAINT WhileRefines\nVIEW HView\n")
         f.write("CHECK_DEADLOCK FALSE\n")
@@ -146,6 +148,12 @@ def collect_histories(ctx, vh):
     notes["heap_alias_refuting_histories"] = len(risky)
     if not risky:
         raise core.Infra("aliasing heap model produced no refuting history: generator lost its teeth")
+    # the stated NON-guarantee: a caller that keeps the map it passed to OverwriteData shares it with the map
+    r = tlc(ctx, d, "SyncHeap", "HeapLent.cfg", map_cfg, 2, 1, 2, 1, ["set", "overk", "hset"], False, "heap-lent")
+    ctx.add_tlc(r)
+    if r.violated != "Isolated":
+        raise core.Infra("SyncHeap no longer shows that OverwriteData adopts its argument (expected a counterexample to Isolated)")
+    notes["adoption_counterexample_found"] = True
     risky = sorted(risky, key=lambda v: json.dumps(v, sort_keys=True))
     if quick:
         rnd.shuffle(risky)
